@@ -266,10 +266,18 @@ def w_verify(task):
     acc = Acc()
     want = rem(msg, w)
     eng = engines()[(w, mode)]
+    shared = bitarray(msg)  # one message object for the whole candidate sweep, as a caller would write it
     for v in cands:
         case = {"op": "verify", "width": w, "mode": mode, "bits": msg, "candidate": v}
         try:
-            got = bool(eng.verify_checksum(bitarray(msg), v))
+            got = bool(eng.verify_checksum(shared, v))
+            if shared.to01() != msg:
+                acc.violation(f"verify_checksum_modifies_message:crc{w}", {**case, "message_after": shared.to01()[:80]},
+                              "verify_checksum changes the bit string passed to it")
+                shared = bitarray(msg)
+            if to_int(eng.calculate_checksum(shared)) != want or shared.to01() != msg:
+                acc.violation(f"calculate_after_verify_wrong:crc{w}", case)
+                shared = bitarray(msg)
             if got != (v == want):
                 acc.violation(f"verify_checksum_wrong_verdict:crc{w}", {**case, "want_crc": want},
                               "verify_checksum accepts a value other than the remainder / rejects the remainder")
@@ -362,9 +370,16 @@ def w_crc9_check(task):
     mname, data, dbsn, c32 = task
     acc = Acc()
     m = CrcMasks[mname]
-    want = def_crc9_parts(data, dbsn, MASK_TABLE[mname], c32)
+    c32_oct = c32.to_bytes(4, "big") if isinstance(c32, int) else c32
+    want = def_crc9_parts(data, dbsn, MASK_TABLE[mname], c32_oct)
+    try:
+        lib = CRC9.calculate_from_parts(data, dbsn, m, c32)
+        if lib != want:
+            acc.violation("crc9_front_end_mismatch", {"op": "crc9_parts", "data": data.hex(), "dbsn": dbsn, "mask": mname, "crc32": repr(c32), "got": lib, "want": want})
+    except Exception as e:
+        acc.violation("exception_crc9:" + exc_sig(e), {"data": data.hex(), "crc32": repr(c32)}, repr(e))
     for v in range(512):
-        case = {"op": "crc9_check", "data": data.hex(), "dbsn": dbsn, "mask": mname, "crc32": c32.hex() if c32 else None, "candidate": v}
+        case = {"op": "crc9_check", "data": data.hex(), "dbsn": dbsn, "mask": mname, "crc32": (c32.hex() if isinstance(c32, bytes) else c32), "candidate": v}
         try:
             got = bool(CRC9.check(data=data, serial_number=dbsn, crc9=v, mask=m, crc32=c32))
             if got != (v == want):
@@ -461,6 +476,40 @@ def w_singletons(task):
         except Exception as e:
             acc.violation("exception_singleton:" + exc_sig(e), case, repr(e))
         acc.case(nontrivial=True, calls=len(seq), outcome=(name, seq[0]), sample=case if seq == (1, 2, 3) else None)
+    return acc
+
+
+def w_register_splits(task):
+    """the documented register workflow: init 1x, update 1..n x, digest 1x -- for every split of the message into 2 pieces (and a
+    family of 3-piece splits); the digest must be the remainder of the concatenation, in both modes"""
+    w, mode, msgs = task
+    acc = Acc()
+    from okdmr.dmrlib.etsi.crc.crc import BitCrcRegister, TableBasedBitCrcRegister
+
+    cls = TableBasedBitCrcRegister if mode == "table" else BitCrcRegister
+    reg = cls(LIBCFG[w])
+    for msg in msgs:
+        want = rem(msg, w)
+        n = len(msg)
+        splits = [(i,) for i in range(n + 1)] + [(i, j) for i in range(0, n + 1, 3) for j in range(i, n + 1, 5)]
+        for sp in splits:
+            case = {"op": "register_updates", "width": w, "mode": mode, "bits": msg, "split_at": list(sp)}
+            try:
+                reg.init()
+                pieces = []
+                prev = 0
+                for cut in sp + (n,):
+                    pieces.append(msg[prev:cut])
+                    prev = cut
+                for pc in pieces:
+                    reg.update(bitarray(pc))
+                got = to_int(reg.digest())
+                if got != want:
+                    acc.violation(f"register_updates_not_remainder_of_concatenation:crc{w}:{mode}", {**case, "got": got, "want": want},
+                                  "feeding a message to the register in several update() calls gives another CRC than the polynomial remainder of the whole message")
+            except Exception as e:
+                acc.violation("exception_register:" + exc_sig(e), case, repr(e))
+            acc.case(nontrivial=True, calls=len(sp) + 3, outcome=(w, mode, len(sp)), sample=case if (len(sp) == 2 and len(acc.samples) < 1) else None)
     return acc
 
 
@@ -797,6 +846,25 @@ def run(only=None):
             s.merge(acc)
         s.done()
 
+    if want("register_split_updates"):
+        s = rep.sub("register_split_updates",
+                    "5 widths x bitwise/table registers used as documented (init, update..., digest): every 2-piece split and a grid of 3-piece splits of "
+                    "messages of lengths {0, 1, w-1, w, feed+1, 2*feed+3, 28, 39, 87}; digest == remainder of the whole message")
+        tasks = []
+        decl = 0
+        for w in WIDTHS:
+            lens = sorted({0, 1, w - 1, w, FEED[w] + 1, 2 * FEED[w] + 3, 28, 39, 87})
+            msgs = [("1" + env.det_bits(f"c05-split-{w}-{n}", n - 1)) if n else "" for n in lens]
+            for mode in MODES:
+                for mm in msgs:
+                    tasks.append((w, mode, [mm]))
+                    n = len(mm)
+                    decl += (n + 1) + len([(i, j) for i in range(0, n + 1, 3) for j in range(i, n + 1, 5)])
+        s.declared = decl
+        for acc in par.pmap(w_register_splits, tasks, nw):
+            s.merge(acc)
+        s.done()
+
     if want("front_end_call_histories"):
         s = rep.sub("front_end_call_histories",
                     "CRC8 / CRC9 / CRC16 / CRC32 front ends: all 6^3 ordered sequences of three calls over a pool of inputs that share "
@@ -882,6 +950,9 @@ def run(only=None):
             tasks.append((mn, env.det_bytes("c05-c9c-a", 16), 127, None))
             tasks.append((mn, env.det_bytes("c05-c9c-b", 12), 5, env.det_bytes("c05-c9c-c", 4)))
             tasks.append((mn, env.det_bytes("c05-c9c-d", 22), 64, None))
+            # the message CRC-32 given as an int stands for its 4 octets big-endian (as calculate_from_parts and the PDU classes use it)
+            tasks.append((mn, env.det_bytes("c05-c9c-e", 6), 9, 0x12345678))
+            tasks.append((mn, env.det_bytes("c05-c9c-f", 18), 100, 0x000000FE))
         s.declared = len(tasks) * 512
         for acc in par.pmap(w_crc9_check, tasks, nw):
             s.merge(acc)
